@@ -599,6 +599,8 @@ pub fn run(e: &'static Engine) {
                     case_in_cell(Cell::from_index(ci), Force { mode: false, level: true, version: fv }, None).prop_map(move |(b, _)| {
                         let mut cfg = cfg.clone();
                         if writer == Writer::Png {
+                            // a raster of (size + 2 x margin)^2 pixels: keep the margin moderate
+                            cfg.margin = cfg.margin.map(|m| if m > 300 { m % 64 } else { m });
                             // the raster pipeline loads the referenced image: only references that mean something here
                             // (files of the scratch directory by relative path, a data URI, a missing file), or none
                             cfg.image = match (cfg.image.is_some(), PNG_IMAGES.get(img)) {
